@@ -74,7 +74,7 @@ def SentinelsOK : Bool := decide (2 ≤ C19.sentinels)
 
 /-- concatStrings tests for an f-string without variables before it indexes `Vars[0]` (the repair of the
     finding concat-string-bare-fstring; `false` on the code before it). -/
-def ConcatGuardOK : Bool := C19.concatGuardsBareFString
+def ConcatGuardOK : Bool := C19.concatGuardsBareFString && C19.concatGuardsBothFString
 
 /-- Side condition on the regenerated facts (decidable). -/
 def FactsOK : Bool :=
@@ -110,7 +110,7 @@ theorem C19_sentinels_ok : 2 ≤ C19.sentinels := by
   simp only [FactsOK, Bool.and_eq_true] at h
   simpa [SentinelsOK] using h.1.1
 
-theorem C19_concat_guard_ok : C19.concatGuardsBareFString = true := by
+theorem C19_concat_guard_ok : C19.concatGuardsBareFString = true ∧ C19.concatGuardsBothFString = true := by
   have h := C19_facts_ok
   simp only [FactsOK, Bool.and_eq_true] at h
   simpa [ConcatGuardOK] using h.1.2
@@ -200,7 +200,14 @@ def errOf {α : Type} : Except PErr α → Option PErr
     `{variable}`s made concatStrings index `Vars[0]` of an empty slice — a Go runtime error without a
     position — and that was the only way it could fail at that index. -/
 theorem C19_old_concat_runtime_iff (k1 k2 : VKind) :
-    concatKindsWith false k1 k2 = .error (.runtime 0) ↔ k1 = .plain ∧ k2 = .fstr 0 := by
+    concatKindsWith false true k1 k2 = .error (.runtime 0) ↔ k1 = .plain ∧ k2 = .fstr 0 := by
+  cases k1 <;> cases k2 <;> simp [concatKindsWith]
+  split <;> simp
+
+/-- The other guard of concatStrings (both operands f-strings, grammar_parse.go:433) is a fact too: without it
+    `f"a" f"b"` would index `Vars[0]` of an empty slice in the same way. -/
+theorem C19_unguarded_both_runtime_iff (k1 k2 : VKind) :
+    concatKindsWith true false k1 k2 = .error (.runtime 0) ↔ (∃ m, k1 = .fstr m) ∧ k2 = .fstr 0 := by
   cases k1 <;> cases k2 <;> simp [concatKindsWith]
 
 /-- On the repaired code concatStrings cannot fail on two string values. -/
@@ -211,9 +218,10 @@ theorem C19_concat_total (k1 k2 : VKind) (h1 : k1 ≠ .other) (h2 : k2 ≠ .othe
   | ok r => rw [hc] at h; exact ⟨r, rfl, h⟩
   | error e =>
     rw [hc] at h
-    have := C19_concat_guard_ok
-    rw [h.2] at this
-    cases this
+    have hg := C19_concat_guard_ok
+    rcases h.2 with h' | h'
+    · rw [h'] at hg; cases hg.1
+    · rw [h'] at hg; cases hg.2
 
 -- the former witness now parses (corpus/C19/fixed-concat-string-bare-fstring.ops replays it on the real parser)
 example : errOf (parseFile "x = \"a\" f\"b\"\n".toUTF8.data) = none := by decide +kernel
@@ -266,9 +274,10 @@ theorem C19_parse_errors (data : Bytes) (e : PErr) (h : parseFile data = .error 
     exact Or.inl ⟨p, m, by rw [hpm], hp⟩
   | fail p k => exact Or.inr ⟨p, k, rfl, hs⟩
   | runtime s =>
-    have hg : C19.concatGuardsBareFString = false := hs.2
-    rw [C19_concat_guard_ok] at hg
-    cases hg
+    have hg := C19_concat_guard_ok
+    rcases hs.2 with h' | h'
+    · rw [h'] at hg; cases hg.1
+    · rw [h'] at hg; cases hg.2
   | outOfFuel => exact absurd hs (by simp [GoodErr])
 
 -- the neighbouring shapes parse: f-string first, or an f-string with a variable after the plain string
